@@ -424,3 +424,49 @@ def new_loop_run(coro, mini=False):
     if mini:
         return MiniLoop().run_until_complete(coro)
     return asyncio.run(coro)
+
+
+# --------------------------------------------------------------------------- determinism (names depend on nonces and time)
+import datetime as _dt
+import random as _random
+
+
+class _DetOS:
+    """os stand-in for replicat.utils.adapters: urandom from a seeded stream (unique per call), rest delegated."""
+
+    def __init__(self):
+        self.rng = _random.Random(0)
+        self.n = 0
+
+    def reseed(self, seed):
+        self.rng = _random.Random(seed)
+        self.n = 0
+
+    def urandom(self, k):
+        self.n += 1
+        return self.n.to_bytes(4, 'big')[:k] + self.rng.randbytes(max(k - 4, 0)) if k >= 4 else self.rng.randbytes(k)
+
+    def __getattr__(self, name):
+        return getattr(os, name)
+
+
+class _DetDatetime(_dt.datetime):
+    _tick = 0
+
+    @classmethod
+    def utcnow(cls):
+        _DetDatetime._tick += 1
+        return _dt.datetime(2022, 1, 1) + _dt.timedelta(seconds=_DetDatetime._tick)
+
+
+_DET = _DetOS()
+
+
+def determinism(seed=0):
+    """Make nonces, keys and snapshot timestamps (hence object names) a function of the case vector."""
+    import replicat.repository as R
+    import replicat.utils.adapters as A
+    A.os = _DET
+    R.datetime = _DetDatetime
+    _DET.reseed(seed)
+    _DetDatetime._tick = seed % 1000 * 10
